@@ -143,8 +143,16 @@ def convert_rules(ctx):
     fi = repo.func(CONV, "KeyConverter._get_public_key_data")
     fq = ctx.fq(fi)
     outs = [o for o in ev.outcomes(fi) if o.kind == "return"]
-    outs = generic.sole_outcome(ctx, outs, f"{fq}: expected one outcome")
-    alts = cases(outs[0].value)
+    if not outs:
+        raise AnalysisError(f"{fq}: no normal outcome")
+    # the alternatives of the key bytes: over the normal exits (a return inside the handler is an exit of its own) and over the
+    # conditional values of each
+    alts = []
+    for o_ in outs:
+        for g_, t_ in cases(o_.value):
+            g2 = dict(g_)
+            g2.update({c_: True for c_ in o_.conds})
+            alts.append((g2, t_))
     xy = [(g, t) for g, t in alts if len([p for p in cat_parts(t) if isinstance(p, App) and p.op == "meth:to_bytes"]) == 2]
     raw = [(g, t) for g, t in alts if isinstance(t, App) and t.op == "meth:public_bytes"]
     R.rule("C15-D1 fixed-width X||Y", 5, "both widths one expression, independent of the coordinate values, 32/48/66 by curve, big endian, X then Y")
@@ -211,7 +219,7 @@ def convert_rules(ctx):
 
     # ---- D2 non-interference
     R.rule("C15-D2a key bytes depend on the key file only", 2, "no layout option reaches the key bytes; the key is the whole input file, no password")
-    attrs = {s.op for s in subterms(outs[0].value) if isinstance(s, App) and s.op.startswith("attr:") and s.args and s.args[0] == SELF}
+    attrs = {s.op for o_ in outs for s in subterms(o_.value) if isinstance(s, App) and s.op.startswith("attr:") and s.args and s.args[0] == SELF}
     R.check("C15-D2a key bytes depend on the key file only", attrs <= {"attr:_input_file"}, "attributes of the converter read by the extractor",
             mod=fi.module, node=fi.node, function=fq, expected="only _input_file", found=f"{sorted(attrs)}")
     kw = {a.args[0].v: a.args[1] for a in key.args if isinstance(a, App) and a.op == "kw"}
